@@ -1,14 +1,15 @@
 """C19 - zeroize and const-default reach every one of the N elements."""
 
 from ..core import PROVED, REFUTED, UNKNOWN, MISSING
-from ..rules import check_views, payload_calls, is_full_view, vstr, self_len
+from ..rules import check_views, payload_calls, is_full_view, vstr, self_len, visits_all
 from ..tys import tstr
 from ..ownership import find_in
 from . import c01
 
 EXPLANATION = (
-    "Static analysis under config F1 (F2 in thorough). C19.Z zeroize: the body is as_mut_slice(self) - proved to be the full N-element view of self (C02.V) - then iter_mut(), then <IterMut<T> as Zeroize>::zeroize on exactly that "
-    "iterator: no skip/take/step_by/rev, no sub-slicing, so every element is handed to zeroize's per-element loop (trusted). C19.D const default, by parametricity: each of the three DEFAULT constants is safe code whose body is one struct "
+    "Static analysis under config F1 (F2 in thorough). C19.Z zeroize: the body takes the full N-element view of self (as_mut_slice / deref_mut, proved full by C02.V) and hands every element to Zeroize::zeroize through one of four recognised "
+    "complete traversals: <IterMut<T> as Zeroize>::zeroize on the unadapted iterator, <[T] as Zeroize>::zeroize on the view, for_each with a closure that zeroizes its argument on every path, or a next() loop whose every Some edge "
+    "zeroizes the yielded element and which returns only on None: no skip/take/step_by/zip/rev, no sub-slicing or splitting. C19.D const default, by parametricity: each of the three DEFAULT constants is safe code whose body is one struct "
     "aggregate initialising all fields (rustc enforces all-fields), every child-typed operand is the constant <U as ConstDefault>::DEFAULT, the trailing element of the odd node is <T as ConstDefault>::DEFAULT, the wrapper's storage is "
     "<N::ArrayType<T> as ConstDefault>::DEFAULT, and the bodies contain no call, transmute, zeroed or MaybeUninit; together with C01.S (a node is exactly two children plus `parity` trailing elements; base [T; 0]) every one of the N slots is "
     "T::DEFAULT for every binary digit pattern of N - the induction no finite test covers; const_default() returns Self::DEFAULT. Agreement with Default::default() depends on the element type's two defaults and is outside the claim.")
@@ -35,20 +36,7 @@ def check(ctx):
         if b is not None:
             a = ctx.analysis(cfg, K_Z)
             N = self_len(a)
-            pc = payload_calls(a)
-            names = [c.fn for c in pc]
-            ok = names == ["core::slice::<impl [T]>::iter_mut", "zeroize::Zeroize::zeroize"]
-            det = "payload calls %s" % names
-            if ok:
-                it, z = pc
-                full = is_full_view(it.args[0], ("arg", 1), N)
-                recv = z.args[0]
-                held = z.mem.get((recv[1], ())) if recv[0] == "P" else None
-                same = held == it.ret
-                res = (z.res or "").startswith("<core::slice::IterMut<")
-                bad = [x[2] for x in find_in(held, lambda t: isinstance(t, tuple) and len(t) >= 3 and t[0] == "V" and t[1] == "iter" and t[2] not in ("slice",))] if held else ["?"]
-                ok = full and same and res and not bad
-                det = "iter_mut over the full N-element view of self: %s; zeroize called on exactly that iterator (no adaptor): %s; resolved to IterMut's Zeroize impl: %s" % (full, same and not bad, res)
+            ok, det = visits_all(ctx, cfg, a, ("arg", 1), N, "zeroize::Zeroize::zeroize", "<core::slice::IterMut<", "<[")
             ctx.ob("C19.Z", K_Z, ok, det, at=b["at"], cfg=cfg)
         # ---- const default
         c01.check_structure(ctx, cfg)
